@@ -179,5 +179,12 @@ def narrow_cases(rng, algs, count, kinds):
                 n = rng.randint(3, 12)
                 vals = [rng.randint(1, top) if rng.random() < 0.8 else rng.randint(1, max(1, B // 3)) for _ in range(n)]
                 p = {"B": B}
-            res.append({"alg": alg, "vals": vals, "p": p})
+            case = {"alg": alg, "vals": vals, "p": p}
+            if rng.random() < 0.25 and alg != "ilp":       # the same shape in half-precision floats: multiples of 32 below 65504, totals above it
+                case["vals"] = [32 * rng.randint(200, 1500) if v else 0 for v in vals]
+                if "B" in p:
+                    case["p"] = {"B": 32 * rng.randint(1000, 2000)}
+                    case["vals"] = [min(v, case["p"]["B"]) for v in case["vals"]] if kind == "pack" else case["vals"]
+                case["f16"] = True
+            res.append(case)
     return res
